@@ -657,7 +657,8 @@ func TestMuSig2Sign(t *testing.T) {
 		qx := b32(p.ctx.Q.X)
 		okRef := secp.VerifySchnorr(qx, msg[:], raw)
 		okBtcd := final.Verify(msg[:], aggKey.FinalKey)
-		if cancelKind == "agg-both-infinity" {
+		if v.NonceInf {
+			recSign2.Count("final-nonce-infinity", 1)
 			// BIP327 "Dealing with Infinity in Nonce Aggregation": a signer who
 			// cancels the aggregate nonce makes every signer use R = G; partial
 			// signatures still verify (checked above) so that the disruptive
